@@ -153,3 +153,44 @@ func HarnessC14Disabled() {
 	vndAssert(calls == 1, "disabled-retry-makes-exactly-one-attempt")
 	vndAssert(err == ret, "disabled-retry-returns-the-outcome")
 }
+
+// C14.wait: the real wait function under the virtual clock: it reports "go on"
+// (nil) only when the delay has fully elapsed; a context that ends first is
+// reported; it never returns early with nil (a too-early nil makes the loop
+// re-send before a server-supplied delay is over)
+func HarnessC14Wait() {
+	unit := time.Second
+	if !vndSymbolic() {
+		unit = time.Millisecond // the native run really sleeps
+	}
+	now := func() int64 {
+		if vndSymbolic() {
+			return vndClockPeek()
+		}
+		return time.Now().UnixNano()
+	}
+	d := time.Duration(1+vndChoice(3)) * unit
+	ctx := context.Background()
+	var cancel context.CancelFunc = func() {}
+	switch vndChoice(4) {
+	case 1: // a deadline before the end of the delay
+		ctx, cancel = context.WithTimeout(ctx, d/2)
+	case 2: // a deadline after it
+		ctx, cancel = context.WithTimeout(ctx, 4*d)
+	case 3: // already cancelled
+		ctx, cancel = context.WithCancel(ctx)
+		cancel()
+	}
+	defer cancel()
+	t0 := now()
+	err := wait(ctx, d)
+	el := now() - t0
+	vndReach("waited")
+	if err == nil {
+		vndReach("go-on")
+		vndAssert(el >= int64(d), "never-waits-less-than-the-requested-delay")
+	} else {
+		vndReach("context-ended")
+		vndAssert(ctx.Err() != nil && errors.Is(err, ctx.Err()), "wait-error-is-the-context-error")
+	}
+}
